@@ -13,7 +13,13 @@ package main
 //     args     z = zero scalars, empty vectors, smallest constructors | p = distinguishable values, vectors
 //              with elements, conditional parameters present for a random set of flag bits
 //     size     s = smallest value of the result type | n<count> = result vector of that many elements |
-//              big = a value that serialises to more than 32768 bytes (one inflate window)
+//              big = a value that serialises to more than 32768 bytes (one inflate window);
+//              with the suffix ~w (or ~w1: all goroutines on one processor, GOMAXPROCS(1)) the call is made WHILE
+//              OTHER CALLS ARE UNDER WAY on the same client: a first generated method's write is in progress (held
+//              in the transport's write hook, the write lock taken), then the method under test encodes its
+//              request and waits for the lock, then a third generated method encodes, and the receive loop
+//              acknowledges a new_session_created — the peer must receive each of the three requests exactly as
+//              the schema serialises that call's arguments, and each call must return its own answer
 //     shape    how the peer delivers the answer: plain | cont (inside a msg_container, after a pong) |
 //              gz (rpc_result{gzip_packed}) | salt (the first copy of the request is rejected with
 //              bad_server_salt, the re-sent copy is answered) | saltgz (both)
@@ -39,6 +45,7 @@ import (
 	"os"
 	"path/filepath"
 	"reflect"
+	"runtime"
 	"sort"
 	"strconv"
 	"strings"
@@ -48,6 +55,7 @@ import (
 	"github.com/xelaj/mtproto"
 	"github.com/xelaj/mtproto/internal/encoding/tl"
 	"github.com/xelaj/mtproto/internal/session"
+	"github.com/xelaj/mtproto/internal/transport"
 	"github.com/xelaj/mtproto/telegram"
 
 	"github.com/xelaj/mtproto/verifharness/internal/reg"
@@ -864,6 +872,7 @@ type c13Peer struct {
 	nextID  uint64
 	content uint32
 	reqs    chan c13Frame
+	damaged []string // client messages under the constructor of msgs_ack / ping that are not well-formed
 }
 
 func c13NewPeer(key []byte) (*c13Peer, error) {
@@ -910,7 +919,21 @@ func (p *c13Peer) read(c net.Conn) {
 		p.mu.Unlock()
 		if len(m.Body) >= 4 {
 			switch binary.LittleEndian.Uint32(m.Body) {
-			case c13CrcAck, c13CrcPing:
+			case c13CrcAck:
+				// msgs_ack#62d6b459 msg_ids:Vector<long>: the vector's id, a count of at least one, that many ids, nothing else
+				b := m.Body
+				if len(b) < 20 || binary.LittleEndian.Uint32(b[4:]) != 0x1cb5c415 || len(b) != 12+8*int(binary.LittleEndian.Uint32(b[8:])) {
+					p.mu.Lock()
+					p.damaged = append(p.damaged, "msgs_ack:"+c13ShowReq(b))
+					p.mu.Unlock()
+				}
+				continue
+			case c13CrcPing:
+				if len(m.Body) != 12 {
+					p.mu.Lock()
+					p.damaged = append(p.damaged, "ping:"+c13ShowReq(m.Body))
+					p.mu.Unlock()
+				}
 				continue
 			}
 		}
@@ -919,6 +942,12 @@ func (p *c13Peer) read(c net.Conn) {
 		default:
 		}
 	}
+}
+
+func (p *c13Peer) damagedMsgs() string {
+	p.mu.Lock()
+	defer p.mu.Unlock()
+	return strings.Join(p.damaged, ",")
 }
 
 func (p *c13Peer) id(content bool) (mid uint64, seq uint32) {
@@ -1095,6 +1124,7 @@ type c13Plan struct {
 	want      []byte // the request
 	res       reflect.Value
 	payload   []byte
+	inter     string // "" | "w" | "w1": the call is made while other calls are under way (see the head of the file)
 }
 
 func c13Seed(op []string) uint64 {
@@ -1112,6 +1142,13 @@ func (w *c13World) plan(op []string) (*c13Plan, error) {
 		return nil, fmt.Errorf("bad args token")
 	}
 	pl := &c13Plan{cm: cm, inner: inner}
+	size := op[3]
+	if i := strings.IndexByte(size, '~'); i >= 0 {
+		size, pl.inter = size[:i], size[i+1:]
+		if (pl.inter != "w" && pl.inter != "w1") || inner != nil || op[4] != "plain" {
+			return nil, fmt.Errorf("bad size token")
+		}
+	}
 	r := NewRand(c13Seed(op))
 	amk := &c13Mk{s: w.s, r: r, scal: op[2] == "p", pop: op[2] == "p", vecN: -1, inner: inner}
 	if pl.args, pl.want, err = w.args(cm, amk); err != nil {
@@ -1126,16 +1163,16 @@ func (w *c13World) plan(op []string) (*c13Plan, error) {
 		rmk.n = 501 // a Bool result is boolTrue for the call with zero arguments, boolFalse for the populated one
 	}
 	switch {
-	case op[3] == "s":
+	case size == "s":
 		if resDef.resTy.kind == "vector" {
 			return nil, fmt.Errorf("size s is for results that are not vectors")
 		}
 		rmk.pop = false
-	case op[3] == "big":
+	case size == "big":
 		rmk.big = true
 		rmk.pop = false
-	case strings.HasPrefix(op[3], "n"):
-		n, err := strconv.Atoi(op[3][1:])
+	case strings.HasPrefix(size, "n"):
+		n, err := strconv.Atoi(size[1:])
 		if err != nil || n < 0 || n > 1<<17 || resDef.resTy.kind != "vector" {
 			return nil, fmt.Errorf("bad size token")
 		}
@@ -1147,7 +1184,7 @@ func (w *c13World) plan(op []string) (*c13Plan, error) {
 	if pl.res, pl.payload, err = w.result(resDef, outT, rmk); err != nil {
 		return nil, fmt.Errorf("answer: %v", err)
 	}
-	if op[3] == "big" && len(pl.payload) <= c13Window {
+	if size == "big" && len(pl.payload) <= c13Window {
 		return nil, fmt.Errorf("answer: no value of %s larger than %d bytes was found", resDef.res, c13Window)
 	}
 	switch op[4] {
@@ -1214,6 +1251,12 @@ func c13Exec(op []string) string {
 	}()
 	client := &telegram.Client{MTProto: m}
 	fn := reflect.ValueOf(client).Method(pl.cm.idx)
+	if pl.inter != "" {
+		if out := w.interleaved(op, pl, peer, client); out != "" {
+			return out
+		}
+		return c13OK(op)
+	}
 
 	ret := make(chan c13Ret, 1)
 	go func() {
@@ -1361,7 +1404,177 @@ func c13Exec(op []string) string {
 	if !bytes.Equal(back.Bytes(), pl.payload) || wantDump != gotDump {
 		return "result-differs sent=" + c13Short(c13Dump(pl.res)) + " returned=" + c13Short(c13Dump(got))
 	}
+	if d := peer.damagedMsgs(); d != "" {
+		return "damaged-message " + c13San(d)
+	}
 	return c13OK(op)
+}
+
+// interleaved: the call of pl (the method under test, A) made while other calls are under way on the same
+// client. B, another generated method, is called first; its write is held in the transport's write hook (the write
+// lock is taken: "a write in progress"). Then A is called: it encodes its request and waits for the lock. Then C, a
+// third generated method, is called and encodes; the peer sends new_session_created, which the receive loop
+// acknowledges (it encodes a msgs_ack). When the hold ends the four messages are written. The peer must have
+// received, in any order, exactly the three requests the schema defines for the three calls' arguments (and a
+// well-formed acknowledgement); it answers each with the value built for that call; every call must return its own.
+// Returns "" when all of that holds.
+func (w *c13World) interleaved(op []string, pl *c13Plan, peer *c13Peer, client *telegram.Client) string {
+	const stage = "encoded-while-a-write-is-in-progress-and-other-callers-encode"
+	// the companions: two other generated methods, zero arguments, smallest answers
+	r := NewRand(c13Seed(op) ^ 0x1e7e21ea5ed)
+	plans := []*c13Plan{nil, pl, nil} // B, A, C
+	for slot, tries := 0, 0; slot < 3; tries++ {
+		if slot == 1 {
+			slot++
+			continue
+		}
+		if tries > 200 {
+			return "harness:no-companion-methods"
+		}
+		n := w.names[r.Intn(len(w.names))]
+		cm := w.methods[n]
+		if cm.def.generic || n == pl.cm.goName || (plans[0] != nil && n == plans[0].cm.goName) {
+			continue
+		}
+		size := "s"
+		if cm.def.resTy.kind == "vector" {
+			size = "n3"
+		}
+		cp, err := w.plan([]string{"c13.e2e", n, "z", size, "plain", op[5]})
+		if err != nil || bytes.Equal(cp.want, pl.want) {
+			continue
+		}
+		plans[slot] = cp
+		slot++
+	}
+	if pl.inter == "w1" {
+		defer runtime.GOMAXPROCS(runtime.GOMAXPROCS(1))
+	}
+	// the first write of this client is held for a while, inside WriteMsg (under the client's write lock)
+	var hmu sync.Mutex
+	held := false
+	transport.VerifYield = func(point string, _ interface{}) {
+		if point != "write" {
+			return
+		}
+		hmu.Lock()
+		first := !held
+		held = true
+		hmu.Unlock()
+		if first {
+			time.Sleep(6 * time.Millisecond)
+		}
+	}
+	defer func() { transport.VerifYield = nil }()
+
+	rets := make([]chan c13Ret, 3)
+	call := func(i int) {
+		rets[i] = make(chan c13Ret, 1)
+		fn := reflect.ValueOf(client).Method(plans[i].cm.idx)
+		go func() {
+			defer func() {
+				if r := recover(); r != nil {
+					rets[i] <- c13Ret{panic: c13San(fmt.Sprint(r))}
+				}
+			}()
+			rets[i] <- c13Ret{out: fn.Call(plans[i].args)}
+		}()
+	}
+	call(0)
+	time.Sleep(1500 * time.Microsecond)
+	call(1)
+	time.Sleep(1500 * time.Microsecond)
+	call(2)
+	time.Sleep(500 * time.Microsecond)
+	peer.send(bytes.Join([][]byte{c13U32(0x9ec20908), c13U64(5), c13U64(6), c13U64(0x5a17c0de5a18)}, nil), true)
+
+	who := func(i int) string {
+		return []string{"first-caller", "method-under-test", "third-caller"}[i] + ":" + plans[i].cm.goName
+	}
+	// the three requests, in any order
+	var frames []c13Frame
+	wait := c13Deadline
+	if c13NoReturns >= 5 {
+		wait = 300 * time.Millisecond // the tree is broken: the rest of the run is about naming the methods
+	}
+	deadline := time.Now().Add(wait)
+	for len(frames) < 3 && time.Now().Before(deadline) {
+		select {
+		case f := <-peer.reqs:
+			frames = append(frames, f)
+		case <-time.After(2 * time.Millisecond):
+			peer.mu.Lock()
+			nd := len(peer.damaged)
+			peer.mu.Unlock()
+			if nd > 0 && len(frames)+nd >= 3 && time.Until(deadline) > 40*time.Millisecond {
+				// requests went out under the constructor of another message: they will not come any more
+				deadline = time.Now().Add(40 * time.Millisecond)
+			}
+		}
+	}
+	owner := make([]int, len(frames)) // frame -> call
+	seen := make([]int, 3)
+	var strange []string
+	for k, f := range frames {
+		owner[k] = -1
+		for i := range plans {
+			if bytes.Equal(f.body, plans[i].want) {
+				owner[k] = i
+				seen[i]++
+			}
+		}
+		if owner[k] < 0 {
+			strange = append(strange, c13ShowReq(f.body))
+		}
+	}
+	if d := peer.damagedMsgs(); d != "" {
+		strange = append(strange, d)
+	}
+	for _, i := range []int{1, 0, 2} {
+		if seen[i] != 1 {
+			c13NoReturns++
+			return fmt.Sprintf("request-differs stage=%s %s: the server received its request %d times; schema-says=%s; received-instead=%s",
+				stage, who(i), seen[i], c13ShowReq(plans[i].want), c13San(strings.Join(strange, ",")))
+		}
+	}
+	if len(strange) > 0 {
+		return "damaged-message stage=" + stage + " " + c13San(strings.Join(strange, ","))
+	}
+	// each request is answered with the value built for its call
+	for k, f := range frames {
+		peer.send(c13RpcResult(f.mid, plans[owner[k]].payload), true)
+	}
+	for _, i := range []int{1, 0, 2} {
+		var rt c13Ret
+		select {
+		case rt = <-rets[i]:
+		case <-time.After(c13Deadline):
+			c13NoReturns++
+			return fmt.Sprintf("no-return stage=%s %s answer-bytes=%d", stage, who(i), len(plans[i].payload))
+		}
+		if rt.panic != "" {
+			return "panic(" + rt.panic + ") stage=" + stage + " " + who(i)
+		}
+		if len(rt.out) != 2 {
+			return "harness:method-shape"
+		}
+		if !rt.out[1].IsNil() {
+			return "error(" + c13San(rt.out[1].Interface().(error).Error()) + ") stage=" + stage + " " + who(i)
+		}
+		resDef := plans[i].cm.def
+		var back bytes.Buffer
+		ty := resDef.resTy
+		if err := w.s.ser(&ty, rt.out[0], &back); err != nil {
+			return "result-is-no-" + c13San(resDef.res) + " (" + c13San(err.Error()) + ") " + who(i) + " value=" + c13Short(c13Dump(rt.out[0]))
+		}
+		if !bytes.Equal(back.Bytes(), plans[i].payload) || (len(plans[i].payload) <= 8192 && c13Dump(plans[i].res) != c13Dump(rt.out[0])) {
+			return "result-differs stage=" + stage + " " + who(i) + " sent=" + c13Short(c13Dump(plans[i].res)) + " returned=" + c13Short(c13Dump(rt.out[0]))
+		}
+	}
+	if d := peer.damagedMsgs(); d != "" {
+		return "damaged-message stage=" + stage + " " + c13San(d)
+	}
+	return ""
 }
 
 func c13ShowReq(b []byte) string {
@@ -1390,9 +1603,19 @@ func c13Judge(op []string, out string) string {
 		}
 	}
 	if len(op) == 6 {
-		size := map[string]string{"s": "the smallest value of the result type", "big": "a value of the result type larger than 32768 bytes"}[op[3]]
+		tok, inter := op[3], ""
+		if i := strings.IndexByte(tok, '~'); i >= 0 {
+			tok, inter = tok[:i], tok[i+1:]
+		}
+		size := map[string]string{"s": "the smallest value of the result type", "big": "a value of the result type larger than 32768 bytes"}[tok]
 		if size == "" {
-			size = "a Vector of " + strings.TrimPrefix(op[3], "n") + " elements"
+			size = "a Vector of " + strings.TrimPrefix(tok, "n") + " elements"
+		}
+		if inter != "" {
+			what += " called while another call's write is in progress and a third caller and the receive loop encode their messages"
+			if inter == "w1" {
+				what += " (GOMAXPROCS 1)"
+			}
 		}
 		how := map[string]string{"plain": "as a plain rpc_result", "cont": "inside a msg_container", "gz": "gzip_packed",
 			"salt":   "after the first copy of the request was rejected with bad_server_salt",
@@ -1405,6 +1628,8 @@ func c13Judge(op []string, out string) string {
 		return what + ": the harness could not carry the operation out: " + out
 	case strings.HasPrefix(out, "request-differs"):
 		return what + " does not send the request the schema defines for these arguments: " + out
+	case strings.HasPrefix(out, "damaged-message"):
+		return what + ": a message of the client reached the server damaged (not what its sender encoded): " + out
 	case strings.HasPrefix(out, "no-request"):
 		return what + ": no request reached the server: " + out
 	case strings.HasPrefix(out, "no-return"):
@@ -1484,6 +1709,27 @@ func c13Gen(g *G) {
 	}
 	for _, n := range gen {
 		emit(n, "p", small(n), shapes[g.R.Intn(len(shapes))], kind(n))
+	}
+	// (1b) a sample of the methods (thorough: every method) called while other calls are under way on the same
+	// client: a write in progress, the method's request encoded and waiting, another caller and the receive loop
+	// encoding meanwhile — on all processors and on one
+	{
+		sample := append([]string{}, gen...)
+		for i := len(sample) - 1; i > 0; i-- {
+			j := g.R.Intn(i + 1)
+			sample[i], sample[j] = sample[j], sample[i]
+		}
+		if n := g.N(40, len(sample)); len(sample) > n {
+			sample = sample[:n]
+		}
+		for i, n := range sample {
+			mode := []string{"~w1", "~w"}[i%2]
+			if g.Thorough() {
+				emit(n, "p", small(n)+"~w", "plain", "interleaved")
+				mode = "~w1"
+			}
+			emit(n, []string{"z", "p"}[g.R.Intn(2)], small(n)+mode, "plain", "interleaved")
+		}
 	}
 	// (2) every method with a Vector result: 0, 3, 5000 elements x every way of delivery; a vector larger
 	// than one inflate window, packed
